@@ -185,6 +185,12 @@ def C17(tier, seed):
     chk = Check('C17', tier, seed)
     be = [0, 2, 3] + ([4] if tier == 'thorough' else [])
     oracle_units(chk, ['FL', 'T', 'FL3'], be, 'C17', proj=('A',), check_result=False, check_flags=True, bfs_depth=6)
+    # inside behaviours: every entry, exit and action queries the OR form of every flag on the root machine; the answers must
+    # be those of the configuration the active-state-switch policy defines at that point
+    pol = ['FL', 'FL_before_transition'] + (['FL_after_exit', 'FL_after_transition_action'] if tier == 'thorough' else [])
+    oracle_units(chk, pol, [0, 3] + ([2] if tier == 'thorough' else []), 'C17', proj=('A', 'E', 'X', 'F'), check_result=False, probe='flags_or',
+                 opts={'probe': 'flags_or', 'defines': ['VF_PROBE_ON 1']}, bfs_depth=6, max_confs=(60 if tier == 'thorough' else 12),
+                 prog_mod=lambda prog: setattr(prog, 'name', prog.name + '_inside'))
     return chk
 
 
